@@ -393,7 +393,7 @@ def check(prop, tier, seed):
             for sh in range(nshards):
                 part = sp[sh::nshards]
                 tag = "%s_%s_%s_%d" % (prop, cfg, profile, sh)
-                jobs.append((cfg, part, profile, max(4, count // 3) if profile == "threads" else count, seed * 1000 + pi * 17 + sh, tag))
+                jobs.append((cfg, part, profile, max(30, count) if profile == "threads" else count, seed * 1000 + pi * 17 + sh, tag))
 
     def do(job):
         cfg, part, profile, cnt, sd, tag = job
